@@ -339,6 +339,13 @@ def check_buffer(prog, f, buf, size_name, eff, entry=None, depth=0, report=None,
             if co_base is None:
                 co_base = '#size-variable-modified-without-matching-offset'
 
+    if size_name and co_base is not None and not co_base.startswith('#') and entry and size_name in entry and entry[size_name].lo is not None and entry[size_name].lo >= 0:
+        # remaining-request invariant: size >= 0 on entry, and every decrement d of the size variable is matched by an advance x of the
+        # running offset with x == d or x the result of a call asked for d items (le_req above).  With chunk <= size proved below from
+        # this very invariant (induction over the loop), the remaining request never becomes negative.
+        bd.invariants = {size_name: B(0, None)}
+        bd._memo.clear()
+
     if co_base == buf:
         co_base = None      # the caller pointer itself is advanced together with the remaining size: offsets are relative to it
 
